@@ -12,10 +12,19 @@ type ContextSettings struct {
 
 type ContextApply func(c *ContextSettings)
 
+type nodeKind int
+
+const (
+	elementKind nodeKind = iota
+	attributeKind
+	namespaceKind
+)
+
 type exprContext struct {
 	root             store.Cursor
 	result           Result
 	contextPosition  int
+	principalKind    nodeKind
 	builtinFunctions map[XmlName]Function
 	ContextSettings
 }
@@ -38,6 +47,7 @@ func (e *exprContext) copy() exprContext {
 		root:             e.root,
 		result:           e.result,
 		contextPosition:  e.contextPosition,
+		principalKind:    e.principalKind,
 		builtinFunctions: builtinFunctions,
 		ContextSettings:  e.ContextSettings,
 	}
